@@ -181,3 +181,43 @@ package webdav
 //@   ensures V10: validName(src) && validName(dst) && old(!absent(lnode(src)) && disjoint(lnode(src), lnode(dst)) && absent(lnode(dst)) && !isDir(parent(lnode(dst)))) ==> httpCode(err) == 409
 //@   ensures V11: err != nil ==> !created && !hostPath(err)
 //@   ensures WF: wfTree()
+//@ func webdav.copyRegularFile(src, dst, perm) (err)
+//@   requires R1: confined(src) && confined(dst) && isFile(node(src))
+//@   requires R2: node(src) != node(dst)
+//@   ensures F1: err == nil <==> old(canCreate(node(dst)))
+//@   ensures F2: err == nil ==> tree == setKind(old(tree), node(dst), 1) && contentOf(data, node(dst)) == contentOf(old(data), node(src))
+//@   |   && (forall m $P :: m != node(dst) ==> contentOf(data, m) == contentOf(old(data), m))
+//@   ensures F3: err != nil ==> tree == old(tree) && data == old(data) && !hostPath(err)
+//@   ensures F4: err != nil && old(!isDir(node(dst))) ==> httpCode(err) == 409
+//@ -- one visit of the COPY walk: at the place below the destination that corresponds to the visited resource, a resource
+//@ -- of the same kind (and content) is created
+//@ spec corrNode(src string, dst string, p string) $P = node(corrPath(src, dst, p))
+//@ spec visitOK(r error) bool = r == nil || r == filepath.SkipDir
+//@ func webdav.(LocalFileSystem).Copy$1(p, fi, err) (r)
+//@   requires V1: confined(*srcPath) && confined(*dstPath) && confined(p) && anc(node(*srcPath), node(p)) && *options != nil
+//@   requires V2: err == nil && fi != nil && (isFile(node(p)) || isDir(node(p))) && (fiIsDir(fi) <==> isDir(node(p)))
+//@   requires V3: disjoint(node(*srcPath), node(*dstPath))
+//@   requires V4: absent(corrNode(*srcPath, *dstPath, p))
+//@   ensures P1: visitOK(r) <==> old(isDir(parent(corrNode(*srcPath, *dstPath, p))))
+//@   ensures P2: visitOK(r) ==> tree == setKind(old(tree), corrNode(*srcPath, *dstPath, p), old(kindOf(tree, node(p))))
+//@   |   && (old(isFile(node(p))) ==> contentOf(data, corrNode(*srcPath, *dstPath, p)) == contentOf(old(data), node(p)))
+//@   |   && (forall m $P :: m != corrNode(*srcPath, *dstPath, p) ==> contentOf(data, m) == contentOf(old(data), m))
+//@   ensures P3: !visitOK(r) ==> tree == old(tree) && data == old(data) && httpCode(r) == 409 && !hostPath(r)
+//@   ensures P4: r == filepath.SkipDir <==> old(isDir(parent(corrNode(*srcPath, *dstPath, p))) && isDir(node(p))) && (*options).NoRecursive
+//@ func webdav.(LocalFileSystem).Copy(fs, ctx, src, dst, options) (created, err)
+//@   requires R1: served(fs) && !strHostPath(src) && !strHostPath(dst) && options != nil
+//@   ensures Y1: err == nil <==> old(copyMoveAccepted(src, dst, options.NoOverwrite))
+//@   ensures Y2: err == nil ==> created == old(absent(lnode(dst)))
+//@   -- the source is reproduced at the destination: deeply, or the bare resource when recursion is off
+//@   ensures Y3: err == nil ==> (forall m $P :: kindOf(tree, m) == (anc(lnode(dst), m) ? ((m == lnode(dst) || !options.NoRecursive) ? kindOf(old(tree), graft(lnode(src), lnode(dst), m)) : 0) : kindOf(old(tree), m)))
+//@   ensures Y4: err == nil ==> (forall m $P :: anc(lnode(dst), m) ==> contentOf(data, m) == contentOf(old(data), graft(lnode(src), lnode(dst), m)))
+//@   |   && (forall m $P :: !anc(lnode(dst), m) ==> contentOf(data, m) == contentOf(old(data), m))
+//@   -- C02
+//@   ensures Y5: err != nil ==> tree == old(tree) && data == old(data)
+//@   ensures Y6: !validName(src) || !validName(dst) ==> httpCode(err) == 400
+//@   ensures Y7: validName(src) && validName(dst) && old(absent(lnode(src))) ==> httpCode(err) == 404
+//@   ensures Y8: validName(src) && validName(dst) && old(!absent(lnode(src)) && !disjoint(lnode(src), lnode(dst))) ==> httpCode(err) == 403
+//@   ensures Y9: validName(src) && validName(dst) && old(!absent(lnode(src)) && disjoint(lnode(src), lnode(dst)) && !absent(lnode(dst))) && options.NoOverwrite ==> httpCode(err) == 412
+//@   ensures Y10: validName(src) && validName(dst) && old(!absent(lnode(src)) && disjoint(lnode(src), lnode(dst)) && absent(lnode(dst)) && !isDir(parent(lnode(dst)))) ==> httpCode(err) == 409
+//@   ensures Y11: err != nil ==> !created && !hostPath(err) && !osIsExist(err)
+//@   ensures WF: wfTree()
